@@ -198,6 +198,52 @@ func TestC09(t *testing.T) {
 	rapid.Check(t, func(t *rapid.T) { check(t, genCase(t)) })
 }
 
+// TestC09Keepalive: idle gaps longer than the keep-alive ticker placed around and inside source transactions.
+func TestC09Keepalive(t *testing.T) {
+	rapid.Check(t, func(t *rapid.T) {
+		yes := true
+		cfg, cmds, sched := gen.GenKeepaliveCase(t, &yes)
+		c := replay.Case{Cfg: cfg, Cmds: cmds, Sched: sched, Start: rapid.Int64Range(0, 1<<33).Draw(t, "start")}
+		st := pbt.For(prop)
+		st.Case()
+		cj := pbt.JSON(c)
+		base := replay.Execute(c, nil)
+		st.Eval(1)
+		if base.Inconc != "" {
+			st.Inconc(base.Inconc)
+			return
+		}
+		report := func(tr *replay.Trace, faults []replay.Fault) {
+			fj := pbt.JSON(FCase{c, faults})
+			for _, f := range judge(tr) {
+				st.Fail(t, f.sig, f.msg, fj, map[string]any{"runs": tr.Runs})
+			}
+		}
+		report(base, nil)
+		win := replay.IdleWindow(&base.Runs[0], 800, 5)
+		if len(win) == 0 {
+			st.Sample(cj)
+			st.Class("keepalive:no-request-after-idle-gap")
+			return
+		}
+		st.Class("keepalive:flush-after-idle-gap")
+		for _, mode := range []string{"crash", "stop"} {
+			for _, n := range win {
+				faults := []replay.Fault{{Mode: mode, At: n}}
+				tr := replay.Execute(c, faults)
+				st.Eval(len(tr.Runs))
+				st.Fault(1)
+				if tr.Inconc != "" {
+					st.Inconc(tr.Inconc)
+					continue
+				}
+				report(tr, faults)
+			}
+		}
+		st.NonTrivial(cj)
+	})
+}
+
 func TestC09Replay(t *testing.T) {
 	if os.Getenv("VERIF_REPLAY") == "" {
 		t.Skip("no VERIF_REPLAY")
